@@ -505,7 +505,8 @@ func runC09(c *Ctx) {
 	checkIdleExclusive(c, fns, lf)
 
 	// ---------------------------------------------------------------- R6
-	c.rule("R6", "a new connection is dialled exactly when no existing one admitted the query; dialing-phase limit <= connection limit", 4)
+	c.rule("R6", "a new connection is dialled exactly when no existing one admitted the query; dialing-phase limit <= connection limit; a refusal is a nil interface, never a typed nil", 5)
+	checkNoTypedNilExchanger(c)
 	if g := c.fn(relTransport, "PipelineTransport", "getReservedExchanger"); g != nil {
 		eachInstr(g, func(in ssa.Instruction) {
 			ci, ok := in.(*ssa.Call)
